@@ -167,6 +167,10 @@ def check_conc(prop, tier):
             hs2.append(scen.harness_level_scenario(sc, {"mode": "dfs", "pb": 2 if tier == "quick" else 3, "max": 40 if tier == "quick" else 120}))
             hs2.append(scen.harness_level_scenario(sc, {"mode": "pct", "seed": seed() * 1000 + i, "runs": nrand, "d": 3}))
             hs2.append(scen.harness_level_scenario(sc, {"mode": "starve"}))
+        for k in range(4, len(hs2), 5):
+            # input corners the model cannot carry directly: timestamps far ahead of the clock, ids in the ULID format
+            hs2[k]["tsoff"] = str([1800000000000000, (1 << 64) - 100000][(k // 5) % 2])
+            hs2[k]["ulid"] = (k // 5) % 4 >= 2
         h2 = run_harness("level", hs2, work, "tv", timeout=3000)
         s2 = tv(h2["trace"], "MCTraceLevel", "TraceLevel", work, timeout=3000)
         res.add(traces_validated_against_impl=s2["execs"], events_validated=s2["lines"], tv_drifts=len(s2["drifts"]),
